@@ -21,6 +21,9 @@ Cases (`<label>` names the concrete Rust type on the harness side and is ignored
   `row OP ; OP ; …` with OP ::= `add <label> <variant> | T | V` | `fill n` (n nulls)
        → one `ok:<count>:<len>` / `err(<class> <path>):<count>:<len>` / `toomany:<count>:<len>` per op, then
          `= cells=<parsed cell count> <buffer hex or digest>`
+  `pager <target> <ext> <skip> | <prepared cols> | <page> | …`  the pager's typed stream over pages with their own
+       metadata (cols ::= n (<name> <type>)…, page ::= <rows> nometa | <rows> <newid> cols)
+       → `ctor:TypeCheck` | `rows=<delivered> fin=end|TypeCheck`
   `bind <path> n…` rows of ~65535 values through from_serializable (slice_i32 / slice_opt / vec_str / map), a
        RowWriter used directly (writer), append_serialize_row (append a b c / mixed n k), add_value (add n)
        → `ok count=<count> cells=<parsed> <digest>` | `err TooManyValues`
@@ -358,6 +361,77 @@ def runBind (toks : List String) : String :=
     else "bad-case"
   | _ => "bad-case"
 
+/-! ### `pager`: pages with differing result metadata through the typed stream -/
+
+def parseCols (toks : List String) : Option (List (String × CqlTy)) :=
+  match toks with
+  | n :: rest =>
+    match n.toNat? with
+    | none => none
+    | some n =>
+      let rec go : Nat → List String → Option (List (String × CqlTy))
+        | 0, [] => some []
+        | 0, _ :: _ => none
+        | k + 1, name :: ty :: r =>
+          match nativeOfName ty, go k r with
+          | some t, some cs => some ((name, .native t) :: cs)
+          | _, _ => none
+        | _ + 1, _ => none
+      go n rest
+  | [] => none
+
+/-- (rows, own columns or none for NO_METADATA, announces a new metadata id) -/
+def parsePage (seg : String) : Option (Nat × Option (List (String × CqlTy)) × Bool) :=
+  match words seg with
+  | [r, "nometa"] => r.toNat?.map fun r => (r, none, false)
+  | r :: nid :: rest =>
+    match r.toNat?, parseCols rest with
+    | some r, some cs => if nid == "1" then some (r, some cs, true) else if nid == "0" then some (r, some cs, false) else none
+    | _, _ => none
+  | _ => none
+
+/-- The columns the rows of page `k` are laid out in (see `effective_cols` in harness/src/c17/pager.rs). -/
+def effectiveCols (prepared : List (String × CqlTy)) (ext : Bool)
+    (pages : List (Nat × Option (List (String × CqlTy)) × Bool)) : List PageM :=
+  let step (acc : List PageM × List (String × CqlTy)) (p : Nat × Option (List (String × CqlTy)) × Bool) :=
+    match p with
+    | (rows, some cs, newId) => (acc.1 ++ [⟨cs, rows⟩], if ext && newId then cs else acc.2)
+    | (rows, none, _) => (acc.1 ++ [⟨acc.2, rows⟩], acc.2)
+  (pages.foldl step ([], prepared)).1
+
+/-- `T::type_check` of the target row type against a page's columns.  The derived struct `PkV { pk: i32, v: i64 }`
+matches BY NAME (the derive macros are C16's subject; here: exactly its two fields, in any order). -/
+def targetCheck (target : String) : Option (List (String × CqlTy) → Bool) :=
+  let cols (cs : List Carrier) := fun (specs : List (String × CqlTy)) => (tcheckRow (.cols cs) (specs.map (·.2))).isNone
+  match target with
+  | "row" => some (fun _ => true)
+  | "t_i32_i64" => some (cols [.scalar .i32, .scalar .i64])
+  | "t_i32_str" => some (cols [.scalar .i32, .scalar .str])
+  | "t_i32" => some (cols [.scalar .i32])
+  | "s_pk_v" => some (fun specs => specs.length == 2 &&
+      specs.any (fun c => c.1 == "pk" && deserAccepts (.scalar .i32) c.2) &&
+      specs.any (fun c => c.1 == "v" && deserAccepts (.scalar .i64) c.2))
+  | _ => none
+
+def runPager (case : String) : String :=
+  match segs case with
+  | hd :: prep :: pageSegs =>
+    match words hd, parseCols (words prep), pageSegs.mapM parsePage with
+    | ["pager", target, ext, _skip], some prepared, some pages =>
+      match targetCheck target with
+      | none => "bad-case"
+      | some check =>
+        match typedStream check (effectiveCols prepared (ext == "1") pages) with
+        | none => "ctor:TypeCheck"
+        | some outs =>
+          let rows := (outs.filter (fun o => match o with | .row _ => true | _ => false)).length
+          let fin := match outs.getLast? with
+            | some (.typeErr _) => "TypeCheck"
+            | _ => "end"
+          s!"rows={rows} fin={fin}"
+    | _, _, _ => "bad-case"
+  | _ => "bad-case"
+
 def run (case impl : String) : String :=
   match (words case).head? with
   | some "ser" =>
@@ -402,6 +476,7 @@ def run (case impl : String) : String :=
       | some rc, some ts => tcStr (tcheckRow rc ts)
       | _, _ => "bad-case"
     | _ => "bad-case"
+  | some "pager" => runPager case
   | some "rows" =>
     match segs case with
     | [_, cseg, tseg, nseg] =>
